@@ -154,8 +154,8 @@ func decodeInputDir(line []byte) (string, string, error) {
 	}
 	if line[0] == '{' {
 		var o struct {
-			Dir  string `json:"dir"`
-			Buf  []int  `json:"buf"`
+			Dir  string  `json:"dir"`
+			Buf  []int   `json:"buf"`
 			Text *string `json:"text"`
 		}
 		if err := json.Unmarshal(line, &o); err != nil {
